@@ -425,12 +425,37 @@ fn index_sweep(rep: &Report, me: Prop, root: &Path, max_n: usize, forest_extra: 
     }
 }
 
+/// (c) the configuration family of C10 (path universe with prefix siblings, nesting, entries naming
+/// files / dirs / targets / outside paths, entries shared by several targets, declaration orders)
+/// judged for layering / cycle rejection under every root subset
+fn shared_sweep(rep: &Report, me: Prop, root: &Path, tier: &str) {
+    crate::c10::setup(root);
+    let b = crate::c10::Bounds { max_t: 3, max_uses: if tier == "thorough" { 2 } else { 1 }, perm_t: 3 };
+    let cases = crate::c10::enumerate(&b);
+    cases.par_iter().for_each(|(rank, cfg)| {
+        let n = cfg.targets.len();
+        let mut counted = false;
+        for mask in 1u32..(1 << n) {
+            let roots = roots_of(n, mask, false);
+            let v = index_case(cfg, &roots, root);
+            if v.prop == me && !counted {
+                rep.nontrivial(1);
+                counted = true;
+            }
+            record(rep, me, v, 900_000_000 + rank, || {
+                json!({"kind": "index", "config": cfg.to_value(), "visible": roots, "universe": "c10"})
+            });
+        }
+    });
+}
+
 pub fn run(me: Prop, tier: &str, root: &Path) -> Value {
     setup(root);
     let rep = Report::new();
     let (gn, inn, fx) = if tier == "thorough" { (5, 4, 2) } else { (4, 4, 1) };
     graph_sweep(&rep, me, gn);
     index_sweep(&rep, me, root, inn, fx, true);
+    shared_sweep(&rep, me, root, tier);
     // samples
     let adj = vec![vec![1, 2], vec![2], vec![]];
     rep.sample(json!({"kind": "graph", "n": 3, "adj": adj, "roots": [0], "note": "a uses [b,c]; b uses [c]"}));
@@ -443,7 +468,7 @@ pub fn run(me: Prop, tier: &str, root: &Path) -> Value {
         "judged here: cases with a cycle reachable from the roots (result must be the graph-cycle error; never groups, never a panic)"
     };
     rep.finish(
-        &format!("graph level: every labelled digraph without self-loops on n<=graph_n nodes x every non-empty root subset (ascending and descending root order) through Dag as Index::new drives it; index level: the same graphs for n<=index_n as flat configurations (uses naming dirs / files) x every root subset x every changed subset (pruning), plus every increasing nesting forest on <=index_n nodes (each nested node directly below its parent or below a non-target gap directory) with <=forest_extra_uses extra uses edges in every declaration order x every root subset; {}; evaluations = judged (case, roots) pairs; non-trivial = distinct graphs/configurations with >=2 edges (flat) or any forest configuration", which),
+        &format!("graph level: every labelled digraph without self-loops on n<=graph_n nodes x every non-empty root subset (ascending and descending root order) through Dag as Index::new drives it; index level: the same graphs for n<=index_n as flat configurations (uses naming dirs / files) x every root subset x every changed subset (pruning), plus every increasing nesting forest on <=index_n nodes (each nested node directly below its parent or below a non-target gap directory) with <=forest_extra_uses extra uses edges in every declaration order x every root subset, plus the whole configuration family of C10 (<=3 targets, entries shared between targets, every order) x every root subset; {}; evaluations = judged (case, roots) pairs; non-trivial = distinct graphs/configurations with >=2 edges (flat) or any forest configuration", which),
         true,
         json!({"graph_n": gn, "index_n": inn, "forest_extra_uses": fx}),
     )
@@ -451,6 +476,7 @@ pub fn run(me: Prop, tier: &str, root: &Path) -> Value {
 
 pub fn replay(case: &Value, root: &Path) -> (Prop, Option<(String, String)>) {
     setup(root);
+    crate::c10::setup(root);
     let v = match case["kind"].as_str().unwrap_or("") {
         "graph" => {
             let adj: Vec<Vec<usize>> = serde_json::from_value(case["adj"].clone()).unwrap();
